@@ -94,6 +94,17 @@ def valid_templates(tier="quick"):
     ops, nb = common_ops()
     T.append(_mk("existing_adds_input", [Variant("v0", st)], {"dd": dd}, ops, [nb], depth, ["existing"]))
 
+    # D1s: the supplied input is a *source* file: written in the manifest, a missing source with no rule is an error
+    # before any command runs, and an existing one is an ordinary implicit input
+    dds = dyndep_text([("out", [], ["hsrc"], False)])
+    for mode in ("existing", "produced"):
+        st = ([Stmt("dd", ex=["dd.in"], copy=True)] if mode == "produced" else []) + \
+             [Stmt("out", ex=["in"], oo=["dd"], dyndep="dd", extra_reads=["hsrc"]), Stmt("top", ex=["out"])]
+        ops, nb = common_ops([{"op": "rm", "path": "hsrc", "label": "rm hsrc"}, {"op": "edit", "path": "hsrc", "label": "edit hsrc"}])
+        files = {"dd": dds} if mode == "existing" else {"dd.in": dds}
+        T.append(_mk("supplies_source_input/" + mode, [Variant("v0", st)], files, ops, [nb], depth, [mode, "source-input"]))
+        T.append(_mk("supplies_source_input/%s/fresh" % mode, [Variant("v0", st)], files, ops, [], 2, [mode, "source-input", "fresh"]))
+
     # D2: dyndep file produced by a statement (clean or dirty), content switchable between two valid ones
     st = [Stmt("dd", ex=["dd.in"], copy=True), Stmt("x", ex=["s"]), Stmt("y", ex=["s"]),
           Stmt("out", ex=["in"], oo=["dd"], dyndep="dd", extra_reads=["x"]), Stmt("top", ex=["out"])]
@@ -118,6 +129,17 @@ def valid_templates(tier="quick"):
           Stmt("out2", ex=["in"], oo=["dd"], dyndep="dd"), Stmt("top", ex=["out", "out2"])]
     ops, nb = common_ops([{"op": "rm", "path": "out2", "label": "rm out2"}])
     T.append(_mk("shared", [Variant("v0", st)], {"dd.in": dd4}, ops, [nb], depth, ["produced", "shared"]))
+
+    # D4b: the bound statement names its dyndep file twice among its inputs (implicit and order-only), which the manifest
+    # language allows: the information must still be applied once
+    ddt = dyndep_text([("out", ["eo"], ["x"], False)])
+    for mode in ("existing", "produced"):
+        st = ([Stmt("dd", ex=["dd.in"], copy=True)] if mode == "produced" else []) + \
+             [Stmt("x", ex=["s"]), Stmt("out", ex=["in"], im=["dd"], oo=["dd"], dyndep="dd", extra_reads=["x"], extra_outs=["eo"]),
+              Stmt("top", ex=["out"])]
+        ops, nb = common_ops([{"op": "rm", "path": "eo", "label": "rm eo"}])
+        files = {"dd": ddt} if mode == "existing" else {"dd.in": ddt}
+        T.append(_mk("dyndep_file_named_twice/" + mode, [Variant("v0", st)], files, ops, [nb], depth, [mode, "named-twice"]))
 
     # D5: two-level: the producer of the dyndep file has dyndep information itself
     dd5a = dyndep_text([("dd2", [], ["x"], False)])
